@@ -125,10 +125,14 @@ pub fn eval(j: &Job) -> Result<&'static str, (String, String)> {
             // (a comment in front of an identifier switches off the library's lenient reading "identifier in place of a
             // string", so with char[n] members the comment-free output may be read differently, with the same tokens
             // and the same validity: model equality is not demanded for that combination)
-            if f2 != f && !(j.comment_at.is_some() && j.has_str) {
+            // (.. and content that does not conform as written but was accepted with a logged "identifier in place of a string" is
+            // written back with that word quoted, after which a string repetition in front of it reads it as one more item: the
+            // lenient reading of non-conforming content, not C18's subject)
+            let lenient_reading = j.has_str && j.expect != Expect::Valid && !_log.is_empty();
+            if f2 != f && !(j.comment_at.is_some() && j.has_str) && !lenient_reading {
                 return v("reload-differs", format!("payload [{payload}]: the written file loads to a different model"));
             }
-            if f2.project.module[0].if_data[0].ifdata_valid != valid {
+            if f2.project.module[0].if_data[0].ifdata_valid != valid && !lenient_reading {
                 return v("reload-validity-differs", format!("payload [{payload}]: validity changes after write and reload"));
             }
         }
@@ -452,6 +456,9 @@ pub fn jobs_for(p: &DefPlan, thorough: bool) -> (Vec<Job>, Option<(Vec<Vec<PTok>
                     } else {
                         Expect::DontCare
                     };
+                    // (a tag written twice in front of a string repetition: the first one gets an empty repetition, the second one is
+                    // the tolerated duplicate of a non-repeatable tag - a documented leniency, not judged)
+                    let exp = if kind == "duplicate" && hs && exp == Expect::Invalid { Expect::DontCare } else { exp };
                     if exp == Expect::Invalid && first_bad.is_none() && !d.is_empty() {
                         first_bad = Some(d.clone());
                     }
